@@ -25,3 +25,9 @@ pub fn input_slice_trace(src: &str, ops: &[(usize, Option<usize>)]) -> Vec<(usiz
     }
     out
 }
+
+/// Runs the lexer's `skip_ws_and_comments` wrapper (around a parser that consumes nothing) on `src`
+/// and returns how many bytes of white space and comments it skipped.
+pub fn skip_trivia(src: &str) -> Option<usize> {
+    crate::lexer::verif_skip_trivia(src)
+}
